@@ -111,7 +111,8 @@ def random_graph(rnd, n):
     wv = [x for x in names if kind[x] != "const" and rnd.random() < 0.15]
     used = {p for x in names for p in pos[x]} - {e[1] for x in names for e in named[x]}
     implicit = [x for x in names if kind[x] == "const" and x in used and ["n", x] not in outs and rnd.random() < 0.4]
-    return dict(nodes=names, kind=kind, pos=pos, named=named, obs=obs, meta=meta, outs=outs, wv=wv, implicit=implicit,
+    meta_false = [x for x in names if kind[x] in ("op", "sim", "sum") and x not in meta and rnd.random() < 0.25]
+    return dict(nodes=names, kind=kind, pos=pos, named=named, obs=obs, meta=meta, meta_false=meta_false, outs=outs, wv=wv, implicit=implicit,
                 bs=rnd.choice([1, 2, 5]), seed=rnd.randint(0, 10 ** 6))
 
 
